@@ -347,10 +347,15 @@ func (lib *SpecLib) loadContractFile(path, pkgPath string) error {
 			case "callsite":
 				// callsite <callee name> requires <expr over the callee's parameter names>
 				f := strings.Fields(rest)
-				if len(f) < 3 || (f[1] != "requires" && f[1] != "assumes") {
-					return fail(fmt.Errorf("callsite <name> requires|assumes <expr>"))
+				if len(f) < 3 || (f[1] != "requires" && f[1] != "assumes" && f[1] != "yields") {
+					return fail(fmt.Errorf("callsite <name> requires|assumes|yields <expr>"))
 				}
 				cl.Kind = "callsite"
+				if f[1] == "yields" {
+					// callsite <name> yields <expr over result>: what a call into a dependency returns (assumed after the
+					// call, never checked, listed as an assumption)
+					cl.Kind = "callyields"
+				}
 				cl.Label = f[0]
 				cl.Text = strings.TrimSpace(strings.TrimPrefix(strings.TrimSpace(strings.TrimPrefix(strings.TrimSpace(rest), f[0])), f[1]))
 				e, err := parseCExpr(cl.Text)
@@ -358,6 +363,10 @@ func (lib *SpecLib) loadContractFile(path, pkgPath string) error {
 					return fail(err)
 				}
 				cl.Expr = e
+				if f[1] == "yields" {
+					cl.Assumed = true
+					lib.Scans = append(lib.Scans, fmt.Sprintf("callsite yields (what a dependency returns, not checked) in %s (%s:%d): %s %s", cur.Key, filepath.Base(path), it.line, cl.Label, cl.Text))
+				}
 				if f[1] == "assumes" {
 					// callsite <name> assumes <expr>: a fact about the state at that call that comes from a dependency
 					// (what a decoder produced, say); assumed, never checked, and listed as such
